@@ -23,24 +23,36 @@ struct Out {
 
 fn spawn(args: &[String], limit: Duration) -> Result<Out, String> {
     let mut c = Command::new(bin()).args(args).stdin(Stdio::null()).stdout(Stdio::piped()).stderr(Stdio::piped()).spawn().map_err(|e| format!("cannot spawn {}: {e}", bin().display()))?;
+    // both pipes are drained while the child runs: a listing longer than the pipe buffer must
+    // not make the child wait for a reader (which would look like a stall)
+    fn drain(r: Option<impl std::io::Read + Send + 'static>) -> std::thread::JoinHandle<Vec<u8>> {
+        std::thread::spawn(move || {
+            let mut v = vec![];
+            if let Some(mut r) = r {
+                let _ = r.read_to_end(&mut v);
+            }
+            v
+        })
+    }
+    let (so, se) = (drain(c.stdout.take()), drain(c.stderr.take()));
     let start = Instant::now();
     let mut timed_out = false;
-    loop {
+    let status = loop {
         match c.try_wait() {
-            Ok(Some(_)) => break,
+            Ok(Some(st)) => break st,
             Ok(None) => {
                 if start.elapsed() > limit {
                     let _ = c.kill();
                     timed_out = true;
-                    break;
+                    break c.wait().map_err(|e| e.to_string())?;
                 }
                 std::thread::sleep(Duration::from_millis(1));
             }
             Err(e) => return Err(e.to_string()),
         }
-    }
-    let o = c.wait_with_output().map_err(|e| e.to_string())?;
-    Ok(Out { code: o.status.code(), stdout: String::from_utf8_lossy(&o.stdout).into(), stderr: String::from_utf8_lossy(&o.stderr).into(), timed_out })
+    };
+    let (stdout, stderr) = (so.join().unwrap_or_default(), se.join().unwrap_or_default());
+    Ok(Out { code: status.code(), stdout: String::from_utf8_lossy(&stdout).into(), stderr: String::from_utf8_lossy(&stderr).into(), timed_out })
 }
 
 fn workdir(idx: usize) -> PathBuf {
@@ -188,7 +200,21 @@ fn judge_mux(c: &MuxCase, dir: &Path, k: usize, global: (usize, bool), order: (u
     // (hex text beyond 8 KiB), 70000 bytes (beyond 64 KiB)
     let vlen = [9usize, 5000, 70_000][(k / 3) % 3];
     let alen = [7usize, 4500][(k / 9) % 2];
-    let (vdata, _) = video_frame(c.codec, true, true, 1, vlen);
+    // what the single frame holds: mostly an ordinary keyframe; every fifth case a frame that
+    // carries its configuration but whose picture is not of the codec's IDR kind (H.264 non-IDR
+    // slice, H.265 BLA picture, AV1 inter frame behind a sequence header, VP9 inter frame): the
+    // command treats its one frame as the keyframe at t = 0, exactly as the library call does
+    let shape = if global.0 % 5 == 4 { 1 + (global.0 / 5) % 2 } else { 0 };
+    let vdata = match (shape, c.codec) {
+        (0, _) => video_frame(c.codec, true, true, 1, vlen).0,
+        (2, VCodec::H264) | (2, VCodec::H265) => {
+            let mut u = oracle::frames::nal_units(c.codec, true, true, 1, vlen);
+            let slice = u.iter_mut().rev().find(|x| x.len() > 2).unwrap();
+            slice[0] = if c.codec == VCodec::H264 { 0x61 } else { 0x20 };
+            oracle::frames::annexb_mode(&u, k as u32)
+        }
+        _ => video_frame(c.codec, false, true, 1, vlen).0,
+    };
     let adata = c.audio.map(|(_, a, _, _)| audio_frame(a, 1, alen).0);
     let vpath = dir.join(format!("v{k}.hex"));
     let apath = dir.join(format!("a{k}.hex"));
@@ -234,12 +260,20 @@ fn judge_mux(c: &MuxCase, dir: &Path, k: usize, global: (usize, bool), order: (u
         }
     };
     let mut issues: Vec<(String, String)> = vec![];
+    let want = library_twin(c, &vdata, adata.as_deref());
+    if shape != 0 {
+        t.count(if want.is_ok() { "mux_non_idr_frames_library_accepts" } else { "mux_non_idr_frames_library_refuses" }, 1);
+    }
     if o.timed_out {
         issues.push(("mux/timeout".into(), "mux did not finish within 10 s".into()));
+    } else if let (Err(e), true) = (&want, shape != 0) {
+        // the library refuses this frame as a first keyframe: the command must fail too
+        if o.code == Some(0) {
+            issues.push(("mux/accepted-what-the-library-refuses".into(), format!("exit 0 although the library refuses the frame ({e})")));
+        }
     } else if o.code != Some(0) {
         issues.push(("mux/valid-options-rejected".into(), format!("exit {:?}; stderr: {}", o.code, o.stderr.chars().take(300).collect::<String>())));
     } else {
-        let want = library_twin(c, &vdata, adata.as_deref());
         let got = std::fs::read(&opath).unwrap_or_default();
         match want {
             Err(e) => issues.push(("mux/library-twin-failed".into(), e)),
@@ -487,6 +521,137 @@ fn info_files(dir: &Path, thorough: bool) -> Vec<(String, Vec<u8>)> {
     v
 }
 
+/// Well-formed files by construction, for `info`: (kind, n) ->
+///  "frag": the library's fragmented recording (init segment + n one-sample fragments);
+///  "free": ftyp + n empty `free` boxes + mdat; "wide": ftyp, an mdat with a 64-bit largesize
+///  header, n `free` boxes, and a last box of size 0 (extends to the end of the file).
+fn gen_info_file(kind: &str, n: usize) -> Vec<u8> {
+    let bx = |ty: &[u8; 4], payload: &[u8]| {
+        let mut b = ((8 + payload.len()) as u32).to_be_bytes().to_vec();
+        b.extend_from_slice(ty);
+        b.extend_from_slice(payload);
+        b
+    };
+    let ftyp = bx(b"ftyp", b"isom\0\0\x02\0isomiso2");
+    match kind {
+        "frag" => {
+            let fc = crate::frag::FCfg { codec: oracle::frames::VCodec::H264, via_builder: true, timescale: 90000, fragment_ms: 2000, start_dts: 0, width: 640, height: 480, ps_len: 10 };
+            let mut m = crate::frag::make(&fc).expect("fragmented muxer");
+            let mut f = m.init_segment();
+            for i in 0..n as u64 {
+                let _ = m.write_video(i * 3000, i * 3000, &[0, 0, 0, 1, 0x65], true);
+                if let Some(sg) = m.flush_segment() {
+                    f.extend(sg);
+                }
+            }
+            f
+        }
+        "free" => {
+            let mut f = ftyp;
+            for _ in 0..n {
+                f.extend(bx(b"free", &[]));
+            }
+            f.extend(bx(b"mdat", &[1, 2, 3]));
+            f
+        }
+        _ => {
+            let mut f = ftyp;
+            f.extend_from_slice(&1u32.to_be_bytes());
+            f.extend_from_slice(b"mdat");
+            f.extend_from_slice(&(16u64 + 5).to_be_bytes());
+            f.extend_from_slice(&[9, 8, 7, 6, 5]);
+            for _ in 0..n {
+                f.extend(bx(b"free", &[]));
+            }
+            f.extend_from_slice(&0u32.to_be_bytes());
+            f.extend_from_slice(b"skip");
+            f.extend_from_slice(&[0x11; 7]);
+            f
+        }
+    }
+}
+
+/// top-level boxes of a file that is well-formed by construction (ISO/IEC 14496-12 4.2: size 1 =
+/// 64-bit largesize after the type, size 0 = the box extends to the end of the file)
+fn top_level(d: &[u8]) -> Vec<(String, u64, u64)> {
+    let mut v = vec![];
+    let mut pos = 0usize;
+    while pos + 8 <= d.len() {
+        let s32 = u32::from_be_bytes(d[pos..pos + 4].try_into().unwrap()) as u64;
+        let size = match s32 {
+            0 => (d.len() - pos) as u64,
+            1 => u64::from_be_bytes(d[pos + 8..pos + 16].try_into().unwrap()),
+            n => n,
+        };
+        assert!(size >= 8 && pos as u64 + size <= d.len() as u64, "generated file is not well-formed");
+        v.push((oracle::reader::fcc(&[d[pos + 4], d[pos + 5], d[pos + 6], d[pos + 7]]), size, pos as u64));
+        pos += size as usize;
+    }
+    assert_eq!(pos, d.len(), "generated file is not well-formed");
+    v
+}
+
+fn gen_info_cases(thorough: bool) -> Vec<(&'static str, usize)> {
+    let mut v = vec![];
+    let mut counts: Vec<usize> = (0..=20).collect();
+    counts.extend([63, 64, 65, 127, 128, 129, 255, 256, 257, 511, 512, 513, 1021, 1022, 1023, 1024, 1025, 2047, 2048, 2049, 4095, 4096, 4097, 65534, 65535, 65536, 65537]);
+    if thorough {
+        counts.extend([100_000, 1_000_000]);
+    }
+    for &n in &counts {
+        v.push(("free", n));
+        if n <= 5000 {
+            v.push(("frag", n));
+        }
+        if n <= 300 {
+            v.push(("wide", n));
+        }
+    }
+    v
+}
+
+fn judge_info_gen(dir: &Path, kind: &str, n: usize, k: usize, order: (u64, u64), t: &mut Tally) {
+    let bytes = gen_info_file(kind, n);
+    let p = dir.join(format!("infogen{k}.bin"));
+    std::fs::write(&p, &bytes).unwrap();
+    t.evaluations += 1;
+    t.count("info_generated_well_formed_files", 1);
+    let case = || json!({"engine": "E6-info-gen", "kind": kind, "n": n});
+    for json_mode in [true, false] {
+        let args: Vec<String> = if json_mode { vec!["--json".into(), "info".into(), p.display().to_string()] } else { vec!["info".into(), p.display().to_string()] };
+        match spawn(&args, Duration::from_secs(20)) {
+            Err(e) => t.violation("C20/machinery/spawn", order, || e.clone(), case),
+            Ok(o) => {
+                if o.timed_out {
+                    t.violation("C20/info/timeout", order, || format!("info on {kind}/{n} ({} bytes) did not terminate within 20 s", bytes.len()), case);
+                    continue;
+                }
+                let want = top_level(&bytes);
+                if json_mode {
+                    t.outcome(oracle::report::h64(o.stdout.as_bytes()) ^ o.code.unwrap_or(-1) as u64);
+                    match serde_json::from_str::<Value>(&o.stdout) {
+                        Ok(j) => {
+                            let got: Vec<(String, u64, u64)> = j["boxes"].as_array().map(|a| a.iter().map(|b| (b["type"].as_str().unwrap_or("").to_string(), b["size"].as_u64().unwrap_or(0), b["offset"].as_u64().unwrap_or(0))).collect()).unwrap_or_default();
+                            if got != want || o.code != Some(0) {
+                                let first = got.iter().zip(want.iter()).position(|(a, b)| a != b).unwrap_or(got.len().min(want.len()));
+                                t.violation("C20/info/box-list", order, || format!("{kind}/{n}: info lists {} boxes (exit {:?}), the file has {} top-level boxes; first difference at index {first}: {:?} vs {:?}", got.len(), o.code, want.len(), got.get(first), want.get(first)), case);
+                            }
+                        }
+                        Err(e) => t.violation("C20/info/no-json", order, || format!("exit {:?}: {e}", o.code), case),
+                    }
+                } else {
+                    // the plain-text listing names every box once, in order
+                    let listed = o.stdout.lines().filter(|l| want.iter().any(|w| l.contains(&format!("{}", w.0)) && l.contains(&format!("{}", w.1)))).count();
+                    if o.code != Some(0) || listed < want.len() {
+                        t.violation("C20/info/text-list", order, || format!("{kind}/{n}: the text listing has {listed} box lines (exit {:?}), the file has {} top-level boxes", o.code, want.len()), case);
+                    }
+                }
+            }
+        }
+    }
+    let _ = std::fs::remove_file(&p);
+}
+
 fn judge_info(dir: &Path, name: &str, bytes: &[u8], well_formed: bool, k: usize, order: (u64, u64), t: &mut Tally) {
     let p = dir.join(format!("info{k}.bin"));
     std::fs::write(&p, bytes).unwrap();
@@ -524,6 +689,7 @@ enum Item {
     Invalid,
     Validate,
     Info(Vec<(String, Vec<u8>)>),
+    InfoGen(Vec<(&'static str, usize)>),
 }
 
 pub fn check(ctx: &Ctx) -> i32 {
@@ -540,6 +706,11 @@ pub fn check(ctx: &Ctx) -> i32 {
     let n_info = info.len();
     for ch in info.chunks(200) {
         items.push(Item::Info(ch.to_vec()));
+    }
+    let gen = gen_info_cases(ctx.thorough);
+    let n_gen = gen.len();
+    for ch in gen.chunks(8) {
+        items.push(Item::InfoGen(ch.to_vec()));
     }
     let tally = par_items(&items, ctx.seed, |idx, it, t| {
         let dir = workdir(idx);
@@ -573,6 +744,11 @@ pub fn check(ctx: &Ctx) -> i32 {
                     }
                 }
             }
+            Item::InfoGen(cs) => {
+                for (k, (kind, n)) in cs.iter().enumerate() {
+                    judge_info_gen(&dir, kind, *n, k, (idx as u64, k as u64), t);
+                }
+            }
             Item::Info(fs) => {
                 for (k, (name, b)) in fs.iter().enumerate() {
                     judge_info(&dir, name, b, false, k, (idx as u64, k as u64), t);
@@ -587,7 +763,7 @@ pub fn check(ctx: &Ctx) -> i32 {
         &tally,
         Meta {
             level: "exploration",
-            rule: format!("the built muxide binary is spawned for: {n_mux} valid mux option combinations ({}) - exit 0, output file (absent, 10 bytes or 70000 bytes of other content beforehand, cycling) byte-equal to an in-process library run with the same settings and the single frame at t=0 (video frames of 9 / 5000 / 70000 bytes, audio frames of 7 / 4500 bytes, cycling), reported frame counts; ~90 single invalid deviations from a valid command (missing/unknown/out-of-range options, eight kinds of bad input file for video and audio, --fragmented, wrong codec for the data) - exit != 0 and no completion message; validate: 10 x 10 input kinds (absent, missing, empty, whitespace, valid, odd, bad char, non-ASCII, binary) x {{--json, -o file}} - verdict valid iff every given input exists and is non-empty even-length hex; info: {n_info} files of <= {} boxes with size fields over {{0, 1, 7, 8, 9, exact, exact+1, 2^32-1}} x ASCII / non-UTF-8 types, files shorter than 8 bytes (termination within 5 s), and every well-formed file produced by the mux runs (box list equals the reader's top-level walk). Distinct by output file / verdict.", if ctx.thorough { "full product of 10 codec spellings x 3 dimensions x 3 frame rates x 28 audio options x 5 titles (incl. surrounding whitespace and empty) x 2 languages x 4 output modes" } else { "every (codec spelling, audio option) pair with the other factors cycling, plus the full product of dimensions x fps x title x language x output mode" }, if ctx.thorough { 3 } else { 2 }),
+            rule: format!("the built muxide binary is spawned for: {n_mux} valid mux option combinations ({}) - exit 0, output file (absent, 10 bytes or 70000 bytes of other content beforehand, cycling) byte-equal to an in-process library run with the same settings and the single frame at t=0 (video frames of 9 / 5000 / 70000 bytes, audio frames of 7 / 4500 bytes, cycling; every fifth frame carries its configuration with a non-IDR picture - H.264 non-IDR slice, H.265 BLA, AV1 / VP9 inter frame - and must be treated as the library call write_video(0, data, keyframe) treats it), reported frame counts; ~90 single invalid deviations from a valid command (missing/unknown/out-of-range options, eight kinds of bad input file for video and audio, --fragmented, wrong codec for the data) - exit != 0 and no completion message; validate: 10 x 10 input kinds (absent, missing, empty, whitespace, valid, odd, bad char, non-ASCII, binary) x {{--json, -o file}} - verdict valid iff every given input exists and is non-empty even-length hex; info: {n_info} files of <= {} boxes with size fields over {{0, 1, 7, 8, 9, exact, exact+1, 2^32-1}} x ASCII / non-UTF-8 types, files shorter than 8 bytes (termination within 5 s), every well-formed file produced by the mux runs, and {n_gen} well-formed files by construction (the library's fragmented recordings of 0..5000 fragments, ftyp + 0..65537 empty free boxes + mdat, and files with a 64-bit largesize mdat and a last box of size 0) through both the JSON and the text listing (box list equals the reader's top-level walk). Distinct by output file / verdict.", if ctx.thorough { "full product of 10 codec spellings x 3 dimensions x 3 frame rates x 28 audio options x 5 titles (incl. surrounding whitespace and empty) x 2 languages x 4 output modes" } else { "every (codec spelling, audio option) pair with the other factors cycling, plus the full product of dimensions x fps x title x language x output mode" }, if ctx.thorough { 3 } else { 2 }),
             bound: "option domains as listed".into(),
             exhaustive: true,
             assumptions: vec!["validate with no inputs, mux --dry-run and --creation-time (documented as unimplemented) are outside the statement and not judged".into(), "the binary under test is built from /repo's working tree into /verif/target/cli by ./check".into()],
@@ -605,7 +781,11 @@ pub fn replay(case: &Value) -> i32 {
             let Some(c) = cases.get(case["mux_index"].as_u64().unwrap() as usize) else { return 2 };
             let mut produced = vec![];
             println!("re-running mux case #{} (inputs regenerated; output path pre-filled with {} bytes)", case["mux_index"], case["preexisting_output_bytes"]);
-            judge_mux(c, &dir, case["k"].as_u64().unwrap_or(0) as usize, (0, false), (0, 0), &mut t, &mut produced);
+            judge_mux(c, &dir, case["k"].as_u64().unwrap_or(0) as usize, (case["mux_index"].as_u64().unwrap() as usize, case["thorough"].as_bool().unwrap_or(false)), (0, 0), &mut t, &mut produced);
+        }
+        Some("E6-info-gen") => {
+            let kind: &'static str = match case["kind"].as_str() { Some("frag") => "frag", Some("free") => "free", _ => "wide" };
+            judge_info_gen(&dir, kind, case["n"].as_u64().unwrap_or(0) as usize, 0, (0, 0), &mut t);
         }
         Some("E6-info") if case["file_hex"].as_str().map(|h| h.len() < 400).unwrap_or(false) => {
             let bytes = oracle::model::unhex(case["file_hex"].as_str().unwrap()).unwrap_or_default();
